@@ -56,6 +56,10 @@ func (check) Plan(tier string, seed int64) []harness.Batch {
 		bs = append(bs, harness.Batch{Name: fmt.Sprintf("stress-%d", p), Seed: seed*1000003 + int64(p), Spec: s, TimeoutS: 3000, CaseTimeoutS: 240, Race: true})
 	}
 	for p := 0; p < 2; p++ {
+		s, _ := json.Marshal(spec{Kind: "quiet-shutdown", N: 6 * n})
+		bs = append(bs, harness.Batch{Name: fmt.Sprintf("quiet-shutdown-%d", p), Seed: seed*1000039 + int64(p), Spec: s, TimeoutS: 3000, CaseTimeoutS: 240, Race: true})
+	}
+	for p := 0; p < 2; p++ {
 		s, _ := json.Marshal(spec{Kind: "fullqueue", N: 3})
 		bs = append(bs, harness.Batch{Name: fmt.Sprintf("fullqueue-%d", p), Seed: seed*1000033 + int64(p), Spec: s, TimeoutS: 600, CaseTimeoutS: 240, Race: true})
 	}
@@ -543,7 +547,83 @@ func (c check) Run(w *harness.W, b harness.Batch) {
 		for i := 0; i < s.N; i++ {
 			runFullQueue(w, gen.New(r.Int63()))
 		}
+	case "quiet-shutdown":
+		for i := 0; i < s.N; i++ {
+			if !runQuietShutdown(w, gen.New(r.Int63())) {
+				break
+			}
+		}
 	}
+}
+
+// quietCase: Suspend/Resume/Close on a quiet terminal (no input but the
+// terminal's own replies) whose replies arrive while the writer of the query
+// is still held up in Write: the shutdown handshake may rely on nothing else.
+type quietCase struct {
+	Caps      uint32 `json:"caps_mask"`
+	LingerMs  int    `json:"write_lingers_ms"`
+	Cycles    int    `json:"suspend_resume_cycles"`
+	QueueSize int    `json:"queue_size"`
+}
+
+func runQuietShutdown(w *harness.W, r gen.R) bool {
+	qc := quietCase{Caps: []uint32{0, 0x1ffff, uint32(r.Int63()) & 0x1ffff}[r.Intn(3)], LingerMs: []int{0, 5, 30}[r.Intn(3)], Cycles: r.Intn(3), QueueSize: []int{16, 1024}[r.Intn(2)]}
+	cj, _ := json.Marshal(qc)
+	w.Begin(string(cj))
+	defer w.End()
+	sess, err := vxh.Start(40, 10, refterm.CapsFromMask(qc.Caps), vaxis.Options{EventQueueSize: qc.QueueSize}, nil)
+	if err != nil {
+		w.Inconclusive("start-failed")
+		return true
+	}
+	if _, ok := sess.Sync(); !ok {
+		w.Inconclusive("startup-sync-timeout")
+		return true
+	}
+	w.Case("quiet|" + string(cj))
+	w.Count("quiet_sessions", 1)
+	sess.Con.With(func() {
+		sess.Con.PostWriteDelay = func(p []byte) time.Duration {
+			if qc.LingerMs > 0 && strings.Contains(string(p), "\x1b[c") {
+				return time.Duration(qc.LingerMs) * time.Millisecond
+			}
+			return 0
+		}
+	})
+	step := func(name string, f func()) bool {
+		done := make(chan struct{})
+		go func() { f(); close(done) }()
+		timeout := time.After(20 * time.Second)
+		for {
+			select {
+			case <-done:
+				w.Count("quiet_"+name+"_completed", 1)
+				return true
+			case <-sess.Vx.Events():
+			case <-timeout:
+				dump := harness.AllStacks()
+				if strings.Contains(dump, "ansi.(*Parser).WaitClose") {
+					w.ViolationStack("shutdown:"+name+"-never-returns:quiet-terminal", name+" did not return on a terminal that answered the wake-up query while the write was still returning: the input goroutine went back to a blocking read before it was told to stop", qc, "blocked in WaitClose after 20s", "returns", dump[:min(len(dump), 6000)])
+				} else {
+					w.Inconclusive(name + "-timeout-without-corroboration")
+				}
+				return false
+			}
+		}
+	}
+	for i := 0; i < qc.Cycles; i++ {
+		if !step("suspend", func() { sess.Vx.Suspend() }) {
+			return false
+		}
+		if !step("resume", func() { sess.Vx.Resume() }) {
+			return false
+		}
+	}
+	if !step("close", func() { sess.Vx.Close() }) {
+		return false
+	}
+	w.Sample(qc)
+	return true
 }
 
 func (check) Finalize(tier string, m *harness.Merged) string {
